@@ -84,7 +84,7 @@ def impl(case):
 
 
 def gen_case(rng, quick):
-    n = rng.randint(1, 6)
+    n = rng.randint(1, 6) if rng.random() < 0.8 else rng.choice([7, 8, 9, 15, 16, 17, 31, 32, 33])
     init = G.uniform(rng, n)
     edits = []
     for _ in range(rng.randint(1, 10 if quick else 30)):
@@ -147,7 +147,8 @@ def main():
                     ck.fail(None, "inc() does not return the object itself", {"case": c}); bad = "reported"; break
             got = (st["str"], st["even"], st["odd"], st.get("out", "ok"))
             want = (txt, ev, od, f[5] if i > 0 else "ok")
-            if got != want or (len(txt) and (st.get("index"), st.get("diag")) != (int(f[3]), int(f[4]))):
+            zb = lambda t: (-1 if t.startswith("-") else 1) * int(t.lstrip("-")[1:], 2)  # noqa: E731
+            if got != want or (len(txt) and (st.get("index"), st.get("diag")) != (zb(f[3]), zb(f[4]))):
                 bad = "step %d %s: implementation %s idx %s/%s, model %s idx %s/%s" % (i, c["edits"][i - 1] if i else "init", got, st.get("index"), st.get("diag"), want, f[3], f[4])
                 break
         if bad and bad != "reported":
